@@ -221,6 +221,9 @@ func (n *Namespace) add(c *serverConn, auth json.RawMessage) (*serverSocket, err
 
 	err = n.runMiddlewares(socket, handshake)
 	if err != nil {
+		// The socket was rejected. It may already be a member of rooms (rooms of a restored
+		// session, or rooms joined by a middleware). Nothing of it should remain in the adapter.
+		socket.leaveAll()
 		return nil, err
 	}
 
